@@ -205,6 +205,26 @@ def main():
         except Exception as e:
             open(os.path.join(a.out, "Flow.v"), "w").write("(* GENERATED: flow extraction failed: %r *)\n" % (e,))
             status["Flow"] = {"ok": False, "errors": ["flow extraction crashed: %r" % (e,)]}
+    if want("sites"):
+        import body as body_mod
+        try:
+            bodies = body_mod.extract(sites_mod.MODS)
+            body_mod.emit(bodies, os.path.join(a.out, "Body.v"))
+            # which functions differ from the pinned digests (for the replay file of a broken pin)
+            changed = {}
+            try:
+                pinned = json.load(open(os.path.join(os.path.dirname(HERE), "coq", "Model", "BodyExpected.json")))
+                for fb in set(pinned) | set(bodies):
+                    a0, b0 = dict(map(tuple, pinned.get(fb, []))), dict(bodies.get(fb, []))
+                    d = sorted(k for k in set(a0) | set(b0) if a0.get(k) != b0.get(k))
+                    if d:
+                        changed[fb] = d
+            except Exception:
+                pass
+            status["Body"] = {"ok": True, "errors": [], "n_functions": sum(len(v) for v in bodies.values()), "changed_functions": changed}
+        except Exception as e:
+            open(os.path.join(a.out, "Body.v"), "w").write("(* GENERATED: body digest extraction failed: %r *)\n" % (e,))
+            status["Body"] = {"ok": False, "errors": ["body digest extraction crashed: %r" % (e,)]}
     if want("sites") or want("orders"):
         # the memory order each ATM_* macro requests in /repo's real atomic headers and in the harness header (C03_macro_orders_agree)
         p = subprocess.run([sys.executable, os.path.join(HERE, "orders.py"), a.repo, os.path.join(a.out, "Orders.v")],
